@@ -587,7 +587,10 @@ def pack_timedelta(spec: ValueSpec) -> Optional[Expression]:
 @register
 def pack_timezone(spec: ValueSpec) -> Optional[Expression]:
     if spec.origin_type is datetime.timezone:
-        return f"{spec.expression}.tzname(None)"
+        # the name of the offset, not the name a timezone may carry
+        return (
+            f"datetime.timezone({spec.expression}.utcoffset(None)).tzname(None)"
+        )
 
 
 @register
